@@ -5,6 +5,7 @@ package gen
 import (
 	"bufio"
 	"bytes"
+	"fmt"
 	"io"
 	"os"
 	"strings"
@@ -23,6 +24,25 @@ type WriterKind struct {
 type plainWriter struct{ b []byte }
 
 func (p *plainWriter) Write(x []byte) (int, error) { p.b = append(p.b, x...); return len(x), nil }
+
+// writerFunc is a writer whose dynamic type is a func type.
+type writerFunc func([]byte) (int, error)
+
+func (f writerFunc) Write(p []byte) (int, error) { return f(p) }
+
+// structWriter is a writer passed by value whose type holds a slice and a map
+// (not comparable, not hashable).
+type structWriter struct {
+	parts [][]byte
+	seen  map[int]bool
+	out   *[]byte
+}
+
+func (w structWriter) Write(p []byte) (int, error) {
+	w.seen[len(p)] = true
+	*w.out = append(*w.out, p...)
+	return len(p), nil
+}
 
 // WriterKinds lists the writer kinds. dir is where temporary files go.
 func WriterKinds(dir string) []WriterKind {
@@ -94,6 +114,14 @@ func WriterKinds(dir string) []WriterKind {
 				return all[len(prelude):], nil
 			}, nil
 		}},
+		{"writer of a func type (its dynamic type cannot be hashed or compared)", func() (io.Writer, func() ([]byte, error), error) {
+			var got []byte
+			return writerFunc(func(p []byte) (int, error) { got = append(got, p...); return len(p), nil }), func() ([]byte, error) { return got, nil }, nil
+		}},
+		{"writer that is a struct value holding a slice and a map", func() (io.Writer, func() ([]byte, error), error) {
+			w := structWriter{parts: [][]byte{nil}, seen: map[int]bool{}, out: new([]byte)}
+			return w, func() ([]byte, error) { return *w.out, nil }, nil
+		}},
 		{"*strings.Builder", func() (io.Writer, func() ([]byte, error), error) {
 			var sb strings.Builder
 			return &sb, func() ([]byte, error) { return []byte(sb.String()), nil }, nil
@@ -120,7 +148,15 @@ func CheckWriterKind(dir string, sel int, want []byte, enc func(w io.Writer) err
 	if err != nil {
 		return "" // cannot set the writer up here: nothing to judge
 	}
-	eerr := enc(w)
+	var eerr error
+	var pv any
+	func() {
+		defer func() { pv = recover() }()
+		eerr = enc(w)
+	}()
+	if pv != nil {
+		return "writing into a " + k.Name + " panics although writing into a bytes.Buffer succeeds: " + fmt.Sprint(pv)
+	}
 	got, cerr := collect()
 	switch {
 	case eerr != nil:
